@@ -30,10 +30,23 @@ def gen_case(rng, cid):
     lo = [rng.choice([0.0, 1.0, -1.0, rng.uniform(-3, 3)]) for _ in range(n)]
     size = [rng.choice([1.0, 0.5, 2.0, rng.uniform(0.01, 3)]) for _ in range(n)]
     hi = [a + b for a, b in zip(lo, size)]
-    toks = [cid, str(n), str(ns)]
     # a plane / corner / random configuration, surface point inside or outside the box
     base = [rng.uniform(l - 1.0 * (h - l), h + 1.0 * (h - l)) for l, h in zip(lo, hi)]
+    near = rng.random() < 0.2
+    if near:
+        # planted optimum a hair (1e-11 .. 1e-6) inside or outside a face / edge / corner, full-rank
+        # exact planes: the dimension search must then notice an escape of a few 1e-9
+        if rng.random() < 0.3:
+            size = [10 ** rng.uniform(-8, -5)] * n
+            hi = [a + b for a, b in zip(lo, size)]
+        base = []
+        for l, h in zip(lo, hi):
+            d = 10 ** rng.uniform(-11, -6)
+            base.append(rng.choice([rng.uniform(l, h), l - d, h + d, l + d, h - d, h + d, l - d]))
+        kind = 0.9
+        ns = max(ns, n + rng.randint(0, 2))
     nrm0 = [rng.gauss(0, 1) for _ in range(n)]
+    toks = [cid, str(n), str(ns)]
     for s in range(ns):
         p = [rng.uniform(l, h) for l, h in zip(lo, hi)]
         if kind < 0.25:      # all normals parallel (rank deficient)
@@ -47,7 +60,7 @@ def gen_case(rng, cid):
         norm = math.sqrt(sum(x * x for x in nrm if math.isfinite(x))) or 1.0
         if all(math.isfinite(x) for x in nrm):
             nrm = [x / norm for x in nrm]
-        v = sum(a * (b - c) for a, b, c in zip(nrm, p, base) if math.isfinite(a)) + rng.choice([0.0, 0.0, rng.gauss(0, 0.01)])
+        v = sum(a * (b - c) for a, b, c in zip(nrm, p, base) if math.isfinite(a)) + (0.0 if near else rng.choice([0.0, 0.0, rng.gauss(0, 0.01)]))
         toks += [d2h(x) for x in p] + [d2h(x) for x in nrm] + [d2h(v)]
     toks += [d2h(x) for x in lo] + [d2h(x) for x in hi]
     return " ".join(toks)
@@ -125,7 +138,8 @@ def run(replay=None):
     ck.coverage["evaluations"] = stats["cases"]
     ck.coverage["distinct_nontrivial"] = len(nontriv)
     ck.coverage["rule"] = ("sample sets of 0..10 samples in N = 1, 2, 3 (parallel, axis-aligned, degenerate / non-finite, random normals; "
-                           "surface point inside or outside the box) x random boxes; non-trivial = the unconstrained optimum lies "
+                           "surface point inside or outside the box; a fifth of the cases plant the optimum 1e-11..1e-6 inside / outside a face, edge or "
+                           "corner, some in cells of size 1e-8..1e-5) x random boxes; non-trivial = the unconstrained optimum lies "
                            "outside the box so the dimension search runs")
     ck.coverage["samples"] = lines[:2]
     ck.coverage["traces_validated_against_impl"] = stats["search_equal"]
